@@ -6,6 +6,9 @@ import (
 	"bytes"
 	"encoding/json"
 	"fmt"
+	"io/ioutil"
+	"log"
+	"math/rand"
 	"net/http/httptest"
 	"reflect"
 	"regexp"
@@ -585,8 +588,82 @@ func decideDM(dm *model.DecisionMaker, tr *trace) (d decision) {
 	return
 }
 
+// viaService: decide() goes through decideHandler of main.go (gin binding, the handler's own request object, its recover
+// and its JSON writer) instead of calling the library the way the handler does. Set per case by streams marked service.
+var viaService bool
+
+// decideService posts the body to the in-process handler. With a trace the three registries of main.go are replaced by
+// decorated ones for the duration of the call (cases run one at a time in a worker). d.dm is the request as sent
+// (decoded by the harness), not the handler's object: the oracles relate the response to the request on the wire.
+func decideService(body []byte, withTrace bool) (d decision) {
+	dm, err := decodeRequest(body)
+	if err != nil {
+		return decision{Err: "decode: " + err.Error()}
+	}
+	d.dm = dm
+	if withTrace {
+		tr := &trace{method: dm.PreferenceFunction}
+		d.Trace = tr
+		fs, ls, bm := decorated(tr)
+		of, ol, ob := funcs, biasListeners, biases
+		funcs, biasListeners, biases = fs, ls, *bm
+		defer func() { funcs, biasListeners, biases = of, ol, ob }()
+	}
+	code, out := httpInproc("POST", "/api/decide", body)
+	if code == 200 {
+		d.JSON = out
+		d.View = parseResp(out)
+		d.OK = d.View != nil
+		if !d.OK {
+			d.Err = "status 200 with a body that is not a decision"
+		}
+		return
+	}
+	var e struct {
+		Error interface{} `json:"error"`
+	}
+	if json.Unmarshal(out, &e) == nil && e.Error != nil {
+		d.Err = fmt.Sprint(e.Error)
+	} else {
+		d.Err = fmt.Sprintf("status %d: %.200s", code, out)
+	}
+	return
+}
+
+var serviceLogOnce sync.Once
+
+// serviceHistory sends a few unrelated requests through the handler before a service case
+func serviceHistory(r *rand.Rand, idx int, res *workerResult) {
+	serviceLogOnce.Do(func() { log.SetOutput(ioutil.Discard) }) // the handler logs every request with %#v
+	n := 1 + r.Intn(3)
+	for k := 0; k < n; k++ {
+		g := c02Gen(r, r.Intn(7000))
+		body := g.body()
+		switch r.Intn(10) {
+		case 0, 1, 2:
+			// a complete request (every optional field it carries is decoded) that is refused afterwards
+			if r.Intn(2) == 0 {
+				g.M["preferenceFunction"] = "noSuchMethod"
+			} else {
+				g.M["choseToMake"] = append([]interface{}{"ghost"}, g.M["choseToMake"].([]interface{})...)
+			}
+			body = g.body()
+		case 3:
+			body = body[:len(body)*(1+r.Intn(9))/10] // cut off: the binding fails after decoding a part of it
+		}
+		code, _ := httpInproc("POST", "/api/decide", body)
+		res.Counters["service_history_requests"]++
+		if code != 200 {
+			res.Counters["service_history_rejected"]++
+		}
+	}
+}
+
 // decide runs a request body in lib mode; with trace==true through freshly decorated registries
 func decide(body []byte, withTrace bool) decision {
+	if viaService {
+		return decideService(body, withTrace)
+	}
 	dm, err := decodeRequest(body)
 	if err != nil {
 		return decision{Err: "decode: " + err.Error()}
